@@ -182,7 +182,8 @@ def restartSameAnswers (o o' : Obs) : Bool :=
 def specCoreWhy (c : Conf) (o : Obs) (op : Op) (r : Reply) (o' : Obs) : Option String :=
   if !noSharedIP o' then some "shared-address"
   else if !oneLeasePerClient o' then some "two-leases-one-client"
-  else if !dynInPool c o' then some "dynamic-outside-pool"
+  else if !dynInPool c o' then
+    some (if o'.leases.any (fun l => !l.static && l.ip == c.gw) then "dynamic-on-gateway" else "dynamic-outside-pool")
   else if !dynNotReserved o' then some "dynamic-on-reservation"
   else if !reservedOK o' op r then some "reserved-client-other-address"
   else if !replyRecorded o' op r then
